@@ -30,6 +30,7 @@ AttrScheme(sc) ==
   CASE sc = 1 -> [i \in Nodes |-> << <<"name", "n" \o ToString(i)>>, <<"b", "x">>, <<"a", "v" \o ToString(i)>>, <<"_p", "s">> >>]
     [] sc = 2 -> [i \in Nodes |-> IF i % 2 = 0 THEN <<>> ELSE << <<"a", "v" \o ToString(i)>> >>]
     [] sc = 3 -> [i \in Nodes |-> << <<"b", "same">>, <<"name", "n" \o ToString(i)>>, <<"a", "same">> >>]
+    [] sc = 4 -> [i \in Nodes |-> << <<"a", "ref">>, <<"b", "v" \o ToString(i)>> >>]     \* "ref": a value that is itself a tree node
 KeyFn == [i \in Nodes |-> (i * 7) % 11]
 DictOpts(s) == {[attriter |-> ai, ci |-> ci, ml |-> ml] :
                   ai \in {"none", "sorted", "public"},
@@ -42,7 +43,7 @@ Init == /\ k \in 1..MaxN
         /\ zlast = [q |-> "init"]
         /\ ValidTree(k, p)
 
-QDict == "dict" \in Queries /\ \E s \in Nodes, sc \in {1, 2, 3}: \E o \in DictOpts(s), jml \in {NoMax, 0, 2}:
+QDict == "dict" \in Queries /\ \E s \in Nodes, sc \in {1, 2, 3, 4}: \E o \in DictOpts(s), jml \in {NoMax, 0, 2}:
            \E d \in {Export(Ch, AttrScheme(sc), s, o)}:
            zlast' = [q |-> "dict", s |-> s, attrs |-> AttrScheme(sc), o |-> o, d |-> d, imp |-> Import(d),
                      jml |-> jml, jd |-> JsonExport(Ch, AttrScheme(sc), s, o, jml),
